@@ -145,8 +145,14 @@ class ExactAlgorithmCplex(ExactAlgorithmBase, PairwiseBasedAlgorithm):
                                               [Ranking([]) for _ in range(nb_rankings_dropped)])
                     rankings: List[Ranking] = self._compute_consensus_rankings_with_optim(new_dataset, scoring_scheme,
                                                                                           False, True)
+                    # the sub-problem may have re-typed its elements (names that all look like integers become
+                    # integers): the buckets are expressed with the elements of the input dataset
+                    elements_scc: Set[Element] = {id_elements[id_elem] for id_elem in scc_i_set}
+                    by_name = {str(element): element for element in elements_scc}
+                    by_int = {int(str(element)): element for element in elements_scc if element.can_be_int()}
                     for bucket in rankings[0]:
-                        ranking.append(bucket)
+                        ranking.append({by_name[str(elem)] if str(elem) in by_name else by_int[int(str(elem))]
+                                        for elem in bucket})
             return [Ranking(ranking)]
 
         # else, no more recursive calls to do, single problem to solve
